@@ -2,7 +2,7 @@
    Only ExtrOcamlBasic is used (bool, option, unit, list, prod, sumbool, sumor mapped to OCaml's);
    no Extract Constant / Extract Inductive directive of our own. N, positive, nat, Z and string
    stay Coq datatypes. *)
-From HC Require Import Base NMap Codec Crypto FlatTree Storage Bitfield Oplog Merkle Core PagedMem DiskFile.
+From HC Require Import Base NMap Codec Crypto FlatTree Storage Bitfield Oplog Merkle Core PagedMem DiskFile FixedWords.
 Require Extraction.
 From HC Require Import Broadcast.
 Require Import ExtrOcamlBasic.
@@ -34,4 +34,6 @@ Extraction "hcmodel.ml"
   run_ram run_file
   (* the disk backend (model of random-access-disk 3.0.1 over a POSIX file, DiskFile.v), both del variants, and the flat file
      on operation lists with reopen (C14) *)
-  run_rad run_dfile ops_tight mkDcfg.
+  run_rad run_dfile ops_tight mkDcfg
+  (* the word-level bitfield model (FixedWords.v) on operation scripts (C08) *)
+  bw_run.
